@@ -121,8 +121,81 @@ func exec(p *Plan, l *valid.LRUCache, rec *Rec) {
 	}
 }
 
+// runFill: one client stores NKeys distinct keys into a cache of capacity Cap (NKeys > Cap), asks for Len as it goes
+// and loads every key at the end. The expected observations follow from the property text directly: Len = min(stored, Cap),
+// the i-th overflowing store evicts the i-th key stored, with its value, exactly once; at the end exactly the last Cap keys hit.
+func runFill(p *Plan, ch simsync.Chooser) *Outcome {
+	out := &Outcome{Probes: detsim.Counter{}}
+	cache := valid.NewLRU(p.Cap)
+	type rm struct {
+		k interface{}
+		v interface{}
+	}
+	var got []rm
+	cache.SetDelCallBackFn(func(k, v interface{}) { got = append(got, rm{k, v}) })
+	var v *detsim.Violation
+	bad := func(sub, format string, a ...interface{}) {
+		if v == nil {
+			v = &detsim.Violation{Class: "model-mismatch", Sub: sub, Detail: fmt.Sprintf("fill history on capacity %d (%d distinct keys): ", p.Cap, p.NKeys) + fmt.Sprintf(format, a...)}
+		}
+	}
+	sim := simsync.New(ch, p.Cfg)
+	sim.Go("client0", func() {
+		for i := 0; i < p.NKeys && v == nil; i++ {
+			before := len(got)
+			cache.Store(i, "f"+fmt.Sprint(i))
+			switch {
+			case i < p.Cap && len(got) != before:
+				bad("callback-extra", "store #%d of a new key below capacity fired the removal callback with (%v,%v)", i, got[before].k, got[before].v)
+			case i >= p.Cap && len(got) != before+1:
+				bad("callback-missing", "store #%d overflowed and the removal callback fired %d times", i, len(got)-before)
+			case i >= p.Cap && (got[before].k != i-p.Cap || got[before].v != "f"+fmt.Sprint(i-p.Cap)):
+				bad("wrong-victim", "store #%d overflowed: callback got (%v,%v), the least recently used entry is (%d,f%d)", i, got[before].k, got[before].v, i-p.Cap, i-p.Cap)
+			}
+			if i%97 == 0 || i == p.NKeys-1 || i == p.Cap || i == p.Cap-1 {
+				want := i + 1
+				if want > p.Cap {
+					want = p.Cap
+				}
+				if n := cache.Len(); n != want {
+					bad(lenSub(n, p.Cap), "after %d stores of distinct keys Len()=%d, want %d", i+1, n, want)
+				}
+			}
+		}
+		for i := 0; i < p.NKeys && v == nil; i++ {
+			x, ok := cache.Load(i)
+			switch live := i >= p.NKeys-p.Cap; {
+			case live && !ok:
+				bad("lost-entry", "Load(%d) missed: the key is among the %d most recently stored", i, p.Cap)
+			case !live && ok:
+				bad("ghost-entry", "Load(%d) hit %v: the key was evicted", i, x)
+			case live && x != "f"+fmt.Sprint(i):
+				bad("stale-value", "Load(%d)=%v", i, x)
+			}
+		}
+	})
+	res := sim.Run()
+	out.Res = res
+	out.PlanSchedHash = detsim.HashAdd(res.LogHash, uint64(p.Cap))
+	switch {
+	case len(res.Panics) > 0:
+		out.V = &detsim.Violation{Class: "panic", Sub: panicSub(res.Panics[0]), Detail: strings.Join(res.Panics, " | ")}
+	case res.StepCapHit:
+		out.Inconclusive = true
+	default:
+		out.V = v
+	}
+	out.Probes.Add("fill_histories", 1)
+	out.Probes.Add("evictions", int64(len(got)))
+	out.NonTrivial = len(got) > 0
+	return out
+}
+
 // Run executes a plan under the given chooser and judges it.
 func Run(p *Plan, ch simsync.Chooser) *Outcome {
+	if p.Shape == "fill" {
+		return runFill(p, ch)
+	}
 	out := &Outcome{Probes: detsim.Counter{}}
 	cache := valid.NewLRU(p.Cap)
 	nc := len(p.Clients)
@@ -150,6 +223,12 @@ func Run(p *Plan, ch simsync.Chooser) *Outcome {
 	cbOn := p.Callback && p.CallbackAt == 0
 	if cbOn {
 		cache.SetDelCallBackFn(cbFn)
+	}
+	if p.Shape == "huge" {
+		// prefill, sequentially, before the clients start
+		for k := 0; k < p.Cap; k++ {
+			cache.Store(p.key(k), "p"+fmt.Sprint(k))
+		}
 	}
 	sim := simsync.New(ch, p.Cfg)
 	// seq shape: the client owns the model and checks each step itself
@@ -241,8 +320,81 @@ func Run(p *Plan, ch simsync.Chooser) *Outcome {
 		judgeSmall(p, out)
 	case "large":
 		judgeLarge(p, cache, out)
+	case "huge":
+		judgeHuge(p, cache, out)
 	}
 	return out
+}
+
+// judgeHuge: the cache was full from the start and the clients never insert or delete a key, so every sequential
+// state holds each of the Cap keys exactly once. Every Dump must therefore list exactly Cap values, one per key, each
+// of them a value that was stored under that key; every Len must be Cap; every Load must hit such a value.
+func judgeHuge(p *Plan, cache *valid.LRUCache, out *Outcome) {
+	h := out.Hist
+	bad := func(sub, format string, a ...interface{}) {
+		if out.V == nil {
+			out.V = &detsim.Violation{Class: "invariant", Sub: sub, Detail: fmt.Sprintf("full cache of capacity %d, %d clients, updates/loads/dumps only: ", p.Cap, len(p.Clients)) + fmt.Sprintf(format, a...)}
+		}
+	}
+	keyOfVal := make(map[string]int, p.Cap+len(h))
+	for k := 0; k < p.Cap; k++ {
+		keyOfVal["p"+fmt.Sprint(k)] = k
+	}
+	for i := range h {
+		if h[i].Op.K == OpStore {
+			keyOfVal[h[i].Op.Val] = h[i].Op.Key
+		}
+	}
+	overlap := false
+	for i := range h {
+		r := &h[i]
+		for j := range h {
+			if h[j].Client != r.Client && h[j].Invoke < r.Return && r.Invoke < h[j].Return {
+				overlap = true
+			}
+		}
+		switch r.Op.K {
+		case OpLen:
+			if r.N != p.Cap {
+				bad(lenSub(r.N, p.Cap), "Len()=%d", r.N)
+			}
+		case OpLoad:
+			if k, ok := keyOfVal[r.Val]; !r.Ok || !ok || k != r.Op.Key {
+				bad("load", "Load(k%d) = (%q,%v): the key is live in every sequential state and was never stored with that value", r.Op.Key, r.Val, r.Ok)
+			}
+		case OpDump:
+			lines := strings.Split(r.Dump, "\n")
+			seen := make(map[int]bool, p.Cap)
+			for _, l := range lines {
+				k, ok := keyOfVal[l]
+				switch {
+				case !ok:
+					bad("dump", "Dump lists %q, which was never stored", l)
+				case seen[k]:
+					bad("dump", "Dump lists key k%d twice (%d lines): no sequential state does", k, len(lines))
+				}
+				seen[k] = true
+			}
+			if len(lines) != p.Cap {
+				bad("dump", "Dump lists %d values, every sequential state holds %d", len(lines), p.Cap)
+			}
+			out.Probes.Add("huge_dumps_checked", 1)
+		}
+		if len(r.Removed) > 0 {
+			bad("callback-extra", "the removal callback fired (%v) although no key was inserted or deleted", r.Removed)
+		}
+	}
+	if n := cache.Len(); n != p.Cap {
+		bad(lenSub(n, p.Cap), "Len()=%d at quiescence", n)
+	}
+	for k := 0; k < p.Cap; k++ {
+		v, ok := cache.Load(p.key(k))
+		if kk, known := keyOfVal[valStr(v)]; !ok || !known || kk != k {
+			bad("load", "at quiescence Load(k%d) = (%v,%v)", k, v, ok)
+			break
+		}
+	}
+	out.NonTrivial = overlap
 }
 
 func panicSub(msg string) string {
